@@ -252,3 +252,28 @@ def cp_text(cps):
 
 def text_cp(s):
     return [ord(c) for c in s]
+
+
+def replay_generic(path):
+    """Re-run what a violation file records against the current build, as far as it can be re-run:
+    an `argv` is executed with the zerv binary (stdin from the record when present) and its outcome is
+    shown next to the recorded expectation; other records are printed.  Exit 1 while the file lists
+    violations (the file is a record of a failed run; re-run the check itself for a fresh verdict)."""
+    d = json.load(open(path))
+    log("replay of %s: property %s, %d violation(s) recorded (showing up to 20)" % (path, d.get("property"), d.get("count", 0)))
+    for m in d.get("violations", [])[:20]:
+        log("- key=%s" % m.get("key"))
+        argv = m.get("argv") or m.get("argv1")
+        if isinstance(argv, list) and argv and all(isinstance(a, str) for a in argv):
+            stdin = m.get("stdin")
+            try:
+                p = subprocess.run([ZERV] + argv, input=stdin if isinstance(stdin, str) else None,
+                                   stdin=None if isinstance(stdin, str) else subprocess.DEVNULL,
+                                   stdout=subprocess.PIPE, stderr=subprocess.PIPE, text=True, timeout=30)
+                log("  now: zerv %s -> exit %d stdout=%r stderr=%r" % (" ".join(argv)[:300], p.returncode, p.stdout[:300], p.stderr[:200]))
+            except Exception as e:  # noqa: BLE001
+                log("  could not re-run: %r" % e)
+        for f in ("expected", "expected_any_of", "observed", "why", "reason", "ops", "input", "s", "in", "cfg", "output"):
+            if f in m:
+                log("  %s: %s" % (f, json.dumps(m[f], ensure_ascii=False)[:400]))
+    return 1 if d.get("violations") else 0
